@@ -27,6 +27,15 @@ Theorem C15_filter_on_entry_name : forall t root names p n,
   file_name p = Some (last names []).
 Proof. exact reached_below_file_name. Qed.
 
+(* the entry a listed path names (lstat) IS the physical node the walk found: the directory qd the declared path denotes,
+   extended by the names of a descent through real directories *)
+Theorem C15_listed_entry_location : forall t root p,
+  wf t = true -> Reached t root p -> p <> root ->
+  exists qd names n, stat t root = Some (qd, KDir) /\ names <> [] /\ NoZinoma names /\
+                     get t (qd ++ names) = Some n /\ p = joins root names /\
+                     lstat t p = Some (qd ++ names, shallow n).
+Proof. exact reached_entry_location. Qed.
+
 (* it is a set: the code collects PathBufs (equal when their components are equal) into a HashSet *)
 Theorem C15_listing_nodup : forall t r, NoDup (map path_key (listing_set t r)).
 Proof. exact listing_set_nodup. Qed.
